@@ -433,6 +433,102 @@ class LibModel:
     def compare(self, eng, st, op, a, b):
         return None
 
+    # ------------------------------------------------------------- comprehensions over a concrete spine
+    def _comp_items(self, eng, st, e):
+        if len(e.generators) != 1 or e.generators[0].is_async:
+            raise OutOfSubset("comprehension with several generators", e)
+        g = e.generators[0]
+        outs = []
+        for s2, it in eng.eval(g.iter, st):
+            if isinstance(it, C) and it.v is None:
+                raise OutOfSubset("comprehension over None", e)
+            if not isinstance(it, (Lst, Tup)):
+                return None
+            cur = [(s2, [])]
+            for x in it.items:
+                nxt = []
+                for s3, acc in cur:
+                    for s4 in eng.assign(g.target, x, s3):
+                        conds = [(s4, True)]
+                        for c in g.ifs:
+                            nc = []
+                            for s5, ok in conds:
+                                if not ok:
+                                    nc.append((s5, False))
+                                    continue
+                                for s6, cv in eng.eval(c, s5):
+                                    for s7, tv in eng.branch(s6, eng.truth(s6, cv), f"L{e.lineno}cif"):
+                                        nc.append((s7, tv))
+                            conds = nc
+                        for s5, ok in conds:
+                            nxt.append((s5, acc + [x] if ok else acc))
+                cur = nxt
+            outs.extend(cur)
+        return outs
+
+    def dictcomp(self, eng, st, e):
+        sel = self._comp_items(eng, st, e)
+        if sel is None:
+            return None
+        g = e.generators[0]
+        outs = []
+        for s2, items in sel:
+            cur = [(s2, [])]
+            for x in items:
+                nxt = []
+                for s3, acc in cur:
+                    for s4 in eng.assign(g.target, x, s3):
+                        for s5, kv in eng.eval_seq([e.key, e.value], s4):
+                            nxt.append((s5, acc + [(kv[0], kv[1])]))
+                cur = nxt
+            for s3, pairs in cur:
+                if all(isinstance(k, (C, ZV)) and (not isinstance(k, ZV) or k.ty == 'int') and
+                       isinstance(v, ZV) and v.ty == 'hv' for k, v in pairs):
+                    m = Z.ZMap.empty()
+                    for k, v in pairs:
+                        m = m.store(eng.as_int(k), v.t)
+                    s3 = s3.clone()
+                    outs.append((s3, eng.new_dict(s3, m)))
+                else:
+                    outs.append((s3, Obj('pymap', {'items': pairs})))
+        return outs
+
+    def listcomp(self, eng, st, e):
+        sel = self._comp_items(eng, st, e)
+        if sel is None:
+            return None
+        g = e.generators[0]
+        outs = []
+        for s2, items in sel:
+            cur = [(s2, [])]
+            for x in items:
+                nxt = []
+                for s3, acc in cur:
+                    for s4 in eng.assign(g.target, x, s3):
+                        for s5, v in eng.eval(e.elt, s4):
+                            nxt.append((s5, acc + [v]))
+                cur = nxt
+            outs.extend((s3, Lst(vs, eng.new_ref())) for s3, vs in cur)
+        return outs
+
+    @staticmethod
+    def pymap_lookup(eng, st, pm, k):
+        for kk, vv in pm.data['items']:
+            if isinstance(kk, ZV) and isinstance(k, ZV) and kk.t.eq(k.t):
+                return vv
+            if isinstance(kk, C) and isinstance(k, C) and kk.v == k.v:
+                return vv
+        raise OutOfSubset(f"lookup of {k} in a python map")
+
+    def obj_pymap_values(self, eng, st, recv, args, kwargs, node):
+        return [(st, Lst([v for _, v in recv.data['items']]))]
+
+    def obj_pymap_keys(self, eng, st, recv, args, kwargs, node):
+        return [(st, Lst([k for k, _ in recv.data['items']]))]
+
+    def obj_pymap_items(self, eng, st, recv, args, kwargs, node):
+        return [(st, Lst([Tup([k, v]) for k, v in recv.data['items']]))]
+
     def genexp(self, eng, st, e):
         return [(st, Obj('genexp', {'node': e, 'env': dict(st.locals)}))]
 
